@@ -196,8 +196,21 @@ CLAIMED["C06"] = dict(
          "`too many iterations` abort are loop properties over runtime values and are not decided.",
     note="Trusted: clang, AST export, sympy; assumes rates, intensities and densities are non-negative (C18 is not decided).")
 
+CLAIMED["C13"] = dict(
+    level="other", design="3/C13",
+    technique="static analysis: abstract interpretation of RandomGenerator over a dyadic-grid interval domain (sets n*2^e with integer "
+              "bounds, smashed arrays, inlined calls with reference parameters, loop fixpoints) with an exactness check on every "
+              "floating-point operation; restart grammar agreement; call-site form rule for the optical-depth draws",
+    text="Decides the clauses of C13 that are invariants of the generator state: for EVERY seed the seeding code leaves the twelve state "
+         "words in {n 2^-48 : 0 <= n < 2^48}, carry 0 and the indices in range (seed 0 becomes 1); the refill preserves that invariant "
+         "with the carry in {0, 2^-48}; every returned value is a state word, hence in [0, 1 - 2^-48] (never 1, so -log(u) > 0 at "
+         "every optical-depth draw); every floating-point operation of the generator is exact (no rounding), so the stream is the same "
+         "function of the seed on every platform and optimisation level; all indices are in bounds; the full state round-trips through a "
+         "restart file. NOT decided: that the stream equals the published ranlxd2 sequence (no reference on disk), that different seeds "
+         "give different streams, byte-identical snapshots of whole runs.",
+    note="Trusted: clang, AST export, the 600-line abstract interpreter (cmiv/absint.py), IEEE-754 binary64 semantics.")
+
 NOT_APPLICABLE = {
-    "C13": "Equality with the RANLUX sequence, range [0,1) and byte-identical snapshots are facts about computed 48-bit arithmetic and library I/O; no sound static domain or on-disk reference to validate against. Its one structural clause (generator state fully dumped/restored) is decided under C09.",
     "C15": "Validity of a Voronoi tessellation and agreement of two constructions quantify over real generator sets; correctness rests on geometric predicates and flip sequences whose outcomes are runtime values; no clause has its truth in the shape of the code.",
     "C16": "Unique containment, volume sums, mutual neighbours after arbitrary refinement histories, path conservation and nearest-neighbour exactness are numeric/geometric statements over runtime trees and point sets; no table or pairing clause carries them.",
     "C17": "Exactness of the sign needs an error analysis of a floating-point filter and of multi-word integer arithmetic for all inputs; out of reach of the available abstract interpreters (goto-analyzer cannot take this C++) and no structural proxy is a necessary condition.",
